@@ -25,6 +25,7 @@
 #include "interrogateType.h"
 #include "interrogateDatabase.h"
 #include "indexRemapper.h"
+#include "verif_idb_json.h"
 #include "cppParser.h"
 #include "cppDeclaration.h"
 #include "cppFunctionGroup.h"
@@ -2203,6 +2204,7 @@ get_make_property(CPPMakeProperty *make_property, CPPStructType *struct_type, CP
     }
   }
 
+  VERIF_EVENT("{\"e\":\"UpdateElement\",\"i\":" << index << "," << verif_idb::element_json(iproperty) << "}");
   return index;
 }
 
@@ -2374,6 +2376,7 @@ get_type(CPPType *type, bool global) {
       if (global) {
         itype._flags |= InterrogateType::F_global;
       }
+      VERIF_EVENT("{\"e\":\"UpdateType\",\"i\":" << index << ",\"why\":\"global\"," << verif_idb::type_json(itype) << "}");
 
       if ((itype._flags & InterrogateType::F_fully_defined) != 0) {
         return index;
@@ -2508,6 +2511,11 @@ get_type(CPPType *type, bool global) {
     }
   }
 
+#ifdef INTERROGATE_VERIF_TRACE
+  if (index != 0) {
+    VERIF_EVENT("{\"e\":\"UpdateType\",\"i\":" << index << ",\"why\":\"define\"," << verif_idb::type_json(itype) << "}");
+  }
+#endif  // INTERROGATE_VERIF_TRACE
   return index;
 }
 
